@@ -54,6 +54,14 @@ def run_shard(shard, tier, seed):
     return small_graphs(shard)
 
 
+def _mcb_unique(m):
+    from ..oracles import mcb
+    try:
+        return mcb.analyse(mcb.mol_adj(m))['unique']
+    except OverflowError:
+        return False
+
+
 def check_case(case, rec):
     if 'stereo_of' in case:
         return check_stereo_injective(case, rec)
@@ -97,7 +105,8 @@ def check_case(case, rec):
             molgen.normalise(x)
         except Exception as e:
             rec.fail('read-back-normalise', f'{str(m)!r} --{f!r}--> {text!r}: read-back cannot be normalised: {type(e).__name__}: {e}',
-                     sig='aromatic-P-ambiguity' if wl.aromatic_p_ambiguity(m) else type(e).__name__)
+                     sig='aromatic-P-ambiguity' if wl.aromatic_p_ambiguity(m) else
+                     ('thiele-mcb-not-unique' if not _mcb_unique(m) else type(e).__name__))
             continue
         sx = molgen.snapshot(x)
         want = molgen.map_snapshot(snap, mp)
@@ -116,10 +125,13 @@ def check_case(case, rec):
             else:
                 try:
                     col, adj = wl.constitution(m)
-                    if wl.gap_a(m, wl.orbits(col, adj)):
-                        sig = 'pseudo-asymmetric'
+                    orb = wl.orbits(col, adj)
+                    if wl.gap_a_ring(m, orb):
+                        sig = 'pseudo-asymmetric-ring'
+                    elif wl.gap_a(m, orb):
+                        sig = 'pseudo-asymmetric-acyclic'
                 except TimeoutError:
-                    sig = 'pseudo-asymmetric'  # symmetry oracle budget: treated like the documented heuristic domain
+                    sig = 'pseudo-asymmetric-ring'  # symmetry oracle budget: treated like the documented heuristic domain
             rec.fail('stereo', f'{str(m)!r} --{f!r}--> {text!r} -> {str(x)!r}: {d[:3]}', sig=sig)
             continue
         rec.sample(f'format:{f or "canonical"}', text, cap=3)
@@ -313,6 +325,17 @@ def _small_mol(types, edges, perm=None):
     return m
 
 
+def _norm_key(m):
+    """brute-force isomorphism class of the aromatised graph: Kekule resonance forms of one ring are one molecule, so ring bonds
+    the library aromatised count as order 4 and aromatic atoms carry their hydrogen count (C05 is about that step itself)"""
+    nums = list(m)
+    idx = {n: i for i, n in enumerate(nums)}
+    types = [(m.atom(n).atomic_symbol, m.atom(n).charge,
+              m.atom(n).implicit_hydrogens if any(b.order == 4 for b in m._bonds[n].values()) else None) for n in nums]
+    edges = {(min(idx[a], idx[b]), max(idx[a], idx[b])): bond.order for a, b, bond in m.bonds()}
+    return iso.canon_key(types, edges)
+
+
 def check_small_batch(batch, rec):
     table = {}
     rec.evaluations -= 1
@@ -323,8 +346,8 @@ def check_small_batch(batch, rec):
         if m.check_valence() or any(a.implicit_hydrogens is None for _, a in m.atoms()):
             rec.count('skip:valence-invalid for chython')
             continue
-        key = iso.canon_key([tuple(t) for t in types], {(min(a, b), max(a, b)): o for a, b, o in edges})
         m.thiele()
+        key = _norm_key(m)
         s = str(m)
         rec.count(f'small:{len(types)}-atoms')
         rec.nt(key)
@@ -343,7 +366,6 @@ def check_small_pair(case, rec):
     ma, mb = _small_mol(a['small'], a['edges']), _small_mol(b['small'], b['edges'])
     ma.thiele()
     mb.thiele()
-    ka = iso.canon_key([tuple(t) for t in a['small']], {(min(i, j), max(i, j)): o for i, j, o in a['edges']})
-    kb = iso.canon_key([tuple(t) for t in b['small']], {(min(i, j), max(i, j)): o for i, j, o in b['edges']})
+    ka, kb = _norm_key(ma), _norm_key(mb)
     if ka != kb and str(ma) == str(mb):
         rec.fail('collision', f'{str(ma)!r} for two non-isomorphic graphs')
